@@ -246,7 +246,7 @@ func TestC08SemanticErrors(t *testing.T) {
 				kind += "+" + k
 			}
 		}
-		lay := &mrogen.Layout{Pick: func(n int) int { return rapid.IntRange(0, n-1).Draw(t, "lay") }, OldModifiers: rapid.Bool().Draw(t, "oldMods")}
+		lay := &mrogen.Layout{Pick: func(n int) int { return rapid.IntRange(0, n-1).Draw(t, "lay") }, OldModifiers: rapid.Bool().Draw(t, "oldMods"), ShuffleCalls: rapid.Bool().Draw(t, "shuffleCalls")}
 		src := []byte(prog.Source(lay))
 		classes := checkEntries(t, "C08", seedFile{name: "gen.mro", dir: "."}, src, "generated program with "+kind)
 		classes = append(classes, "semantic-error-program")
